@@ -139,7 +139,7 @@ class FakeServer(ScriptedPeer):
     # ---------------------------------------------------------------- WebSocket
     def _ws(self, url):
         if self.ws_mode == 'refuse':
-            raise Refuse()
+            raise Refuse(getattr(self, 'ws_refuse_kind', 'ws'))
         link = WsLink()
         link.established = False
         upgrade = 'sid=' in url
